@@ -384,6 +384,8 @@ pub fn gen_arg(rng: &mut Rng, id: &str, positional: bool, cfg: &GenCfg, ids: &[S
         if rng.chance(1, 6) { let o = other(rng); if o != a.id { a.blacklist.push(o); } }
         if rng.chance(1, 8) { let o = other(rng); a.overrides.push(o); }
         if rng.chance(1, 6) { let o = other(rng); if o != a.id { a.requires.push((if rng.chance(2, 3) { PredS::Present } else { PredS::Equals("v".into()) }, o)); } }
+        // several value-conditional rules naming the SAME target: each of them alone must be enforced
+        if rng.chance(1, 10) { let o = other(rng); if o != a.id { a.requires.push((PredS::Equals("w".into()), o.clone())); a.requires.push((PredS::Equals("v".into()), o)); } }
         if rng.chance(1, 10) { a.exclusive = true; }
         match rng.below(14) {
             0 => a.required = true,
